@@ -423,7 +423,7 @@ def oracle(ck, scratch):
     files = vlib.corpus_files()
     if quick:
         files = [f for f in files if os.path.getsize(f) < 1000000]
-        nmut, maxsize = 3, 150000
+        nmut, maxsize = 2, 150000
     else:
         nmut, maxsize = 24, 400000
     stats = {"pairs": 0, "mutated_pairs": 0, "by_pair": {}, "rc_table": {}, "formats": {}, "container_variants": 0,
@@ -463,8 +463,8 @@ def oracle(ck, scratch):
     ck.note("oracle_files", len(files))
     # MemorySanitizer pass: initialisedness of the reported strings
     if exem:
-        mfiles = [f for f in order if os.path.getsize(f) < (1000000 if quick else 4000000)]
-        shards = [(exem, ck.seed, 1 if quick else 3, maxsize, os.path.join(scratch, "m%d" % i), bystander, mfiles[i::nsh]) for i in range(nsh)]
+        mfiles = [f for f in order if os.path.getsize(f) < (300000 if quick else 4000000)]
+        shards = [(exem, ck.seed, 0 if quick else 3, maxsize, os.path.join(scratch, "m%d" % i), bystander, mfiles[i::nsh]) for i in range(nsh)]
         shards = [s for s in shards if s[6]]
         for (rc, out, err), sh in zip(vlib.pmap(run_oracle_shard, shards), shards):
             if rc != 0:
@@ -579,7 +579,8 @@ def replay(ck, rp):
     finally:
         shutil.rmtree(scratch, ignore_errors=True)
     if bad:
-        print("VIOLATION property=C11 replay=%s" % rp.get("_path", "(see above)"))
+        safe = re.sub(r"[^A-Za-z0-9_.-]+", "_", rp.get("signature", "unproved"))[:80]
+        print("VIOLATION property=C11 replay=%s" % os.path.join(vlib.OUT, "replay-C11-%s.json" % safe))
     else:
         print("the recorded case no longer fails")
     return 1 if bad else 0
